@@ -8,7 +8,7 @@ from topsim.core.simulation import Simulation
 PIN = {}
 FUNCTIONS = [Simulation.start, Simulation.resume, simh.M.Monitor.run, simh.M.Monitor.collate_events] + simh.FUNCTIONS[4:12]
 META = {
-    'bounds': {'C11.horizon_T': 16, 'C11.pause_k': '1..T-1', 'C11.second_cut_j': 'k..T', 'C11.scenarios': 'two observations (start 0..2, durations 1..2), 2-task workflow, Batch(1,2 partitions) and Queue',
+    'bounds': {'C11.horizon_T': 16, 'C11.pause_k': '1..T-1', 'C11.second_cut_j': 'k..T (also as the final horizon itself)', 'C11.scenarios': 'two observations (start 0..2, durations 1..2), 2-task workflow, Batch(1,2 partitions) and Queue',
                'C11.refusals': 'start() twice (mid-run and after completion), resume() before start()'},
     'outside_bounds': ['more than two resume segments', 'horizons > 16 steps', 'output to HDF5 files'],
     'stubs': simh.STUBS, 'assumptions': [],
@@ -23,8 +23,15 @@ def scenario(s2, d1, d2, da, db):
 
 
 def _run(k, j, s2, d1, d2, da, db):
-    ref = simh.outputs(simh.run_public(scenario(s2, d1, d2, da, db), [T]))
-    segs = [k] + ([j] if j > k else []) + ([T] if T > j else [])
+    if PIN.get('final') == 'j':
+        # the run ends at the second cut j itself (any horizon, not only one beyond completion)
+        if j <= k:
+            return None
+        ref = simh.outputs(simh.run_public(scenario(s2, d1, d2, da, db), [j]))
+        segs = [k, j]
+    else:
+        ref = simh.outputs(simh.run_public(scenario(s2, d1, d2, da, db), [T]))
+        segs = [k] + ([j] if j > k else []) + ([T] if T > j else [])
     try:
         got = simh.outputs(simh.run_public(scenario(s2, d1, d2, da, db), segs))
     except Exception as ex:
@@ -140,6 +147,8 @@ def shards(tier, prop):
     # the first observation starts later than the earliest pause points (nothing has happened yet at the pause)
     for alg in ('batch1', 'queue'):
         out.append({'fn': 'pause', 'pin': {'alg': alg, 'timing': [1, 2, 1], 's1': 2}, 'cond_timeout': 200 if tier == 'quick' else 900})
+    for alg in ('batch1', 'queue'):
+        out.append({'fn': 'pause', 'pin': {'alg': alg, 'timing': [1, 2, 1], 'final': 'j'}, 'cond_timeout': 200 if tier == 'quick' else 900})
     out.append({'fn': 'refuse', 'cond_timeout': 100})
     out.append({'fn': 'pause', 'pin': {'alg': 'queue', 'timing': [1, 2, 1]}, 'cond_timeout': 30, 'twin': True})
     return out
